@@ -175,29 +175,80 @@ def Store.ok (s : Store) : Bool := s.gens.all GenDir.complete
 /-- `read` of a listed generation: a missing state file answers `b''` -/
 def GenDir.read (g : GenDir) (sid : Nat) : Option Origin := (g.files.find? (fun f => f.1 == sid)).map (·.2)
 
+/-- what readers see of one directory: nothing unless it is listed (`tag.toml` exists), else key, run and the states -/
+def GenDir.entry (g : GenDir) : Option (Nat × Nat × List (Option Origin)) :=
+  match g.tag with
+  | none => none
+  | some (run, sids) => some (g.key, run, sids.map g.read)
+
 /-- what readers see: the listed generations in key order (generations are created in key order) with their states -/
-def Store.view (s : Store) : List (Nat × Nat × List (Option Origin)) :=
-  s.gens.filterMap (fun g => match g.tag with
-    | none => none
-    | some (run, sids) => some (g.key, run, sids.map g.read))
+def Store.view (s : Store) : List (Nat × Nat × List (Option Origin)) := s.gens.filterMap GenDir.entry
 
 /-- the registry as the model of the actions sees it; a listed generation with a missing state cannot be expressed
 (`Store.ok` excludes it) — such states are dropped -/
 def Store.registry (s : Store) : Registry :=
   s.view.map (fun v => ⟨v.2.1, v.2.2.filterMap id⟩)
 
-/-- a registry as a store: generation `i` keeps its states under the ids `1000 * i + position` -/
-def storeOf (reg : Registry) : Store where
-  staged := []
-  gens := (List.range reg.length).filterMap (fun i =>
-    (reg[i]?).map (fun g =>
-      let files := (List.range g.states.length).filterMap (fun j => (g.states[j]?).map (fun o => (1000 * (i + 1) + j, o)))
-      ⟨i + 1, files, some (g.run, files.map (·.1))⟩))
+/-- the state files of one generation: ids `base + position` -/
+def filesFrom (base : Nat) : Nat → List Origin → List (Nat × Origin)
+  | _, [] => []
+  | j, o :: os => (base + j, o) :: filesFrom base (j + 1) os
+
+/-- generation `k` of a registry as a directory: its states under the ids `1000 * k + position`, listed -/
+def genDirOf (k : Nat) (g : Generation) : GenDir :=
+  ⟨k, filesFrom (1000 * k) 0 g.states, some (g.run, (filesFrom (1000 * k) 0 g.states).map (·.1))⟩
+
+def gensFrom : Nat → Registry → List GenDir
+  | _, [] => []
+  | i, g :: gs => genDirOf (i + 1) g :: gensFrom (i + 1) gs
+
+/-- a registry as a store -/
+def storeOf (reg : Registry) : Store := ⟨[], gensFrom 0 reg⟩
+
+/-- the micro-steps of the training run that commits `g` on top of `reg` -/
+def commitOps (reg : Registry) (g : Generation) : List Op :=
+  trainOps (reg.length + 1) g.run (filesFrom (1000 * (reg.length + 1)) 0 g.states)
 
 /-- a training run that dies after `done` micro-steps of its commit of generation `g` -/
 def crashedCommit (reg : Registry) (g : Generation) (done : Nat) : Registry :=
-  let k := reg.length + 1
-  let states := (List.range g.states.length).filterMap (fun j => (g.states[j]?).map (fun o => (1000 * k + j, o)))
-  (runOps (storeOf reg) ((trainOps k g.run states).take done)).registry
+  (runOps (storeOf reg) ((commitOps reg g).take done)).registry
+
+/-! ### histories with faults -/
+
+/-- what else happens around an action -/
+structure Fault where
+  /-- (train) the process dies inside its commit after that many micro-steps -/
+  crash : Option Nat
+  /-- another process re-trains `(run, hyper-parameter)` from the latest generation, on its own fresh expansion, and
+  commits right after the first state load of this action -/
+  race : Option (Nat × Nat × Fresh)
+
+/-- the registry after the action: a training that dies inside its commit leaves what its completed micro-steps
+left (`crashedCommit`); a racing re-training commits on top of that.  The action's own loads are pinned
+(`C04_generation_pinned`), so its observations are those of `step` on the registry it started from — except for an
+action that started on an *empty* release (nothing is pinned then: `C04_generation_pinned_counterexample`, finding
+C04-F2; `obsOk` demands nothing of an action that addresses no generation, the check compares such a step by the
+registry only). -/
+def settle (cs : Case) (reg reg' : Registry) (x : Fault) : Registry :=
+  let afterCrash := match x.crash with
+    | none => reg'
+    | some k =>
+      match reg'.drop reg.length with
+      | [g] => crashedCommit reg g k
+      | _ => reg'
+  match x.race with
+  | none => afterCrash
+  | some (r, h, f) =>
+    match step (cs.rename f.1 f.2) afterCrash ⟨.train, none, r, h⟩ with
+    | .ok (reg'', _) => reg''
+    | .error _ => afterCrash
+
+/-- a history of actions with faults; a failed action commits nothing (a racing re-training still may) -/
+def runFaulty (cs : Case) : Registry → List (Action × Fresh × Fault) → List (Action × Registry × Except Err (List Obs))
+  | _, [] => []
+  | reg, (a, f, x) :: rest =>
+    match step (cs.rename f.1 f.2) reg a with
+    | .error e => (a, reg, .error e) :: runFaulty cs (settle cs reg reg x) rest
+    | .ok (reg', obs) => (a, reg, .ok obs) :: runFaulty cs (settle cs reg reg' x) rest
 
 end ForML.Persist
